@@ -20,7 +20,7 @@ from ..seams.flow import Tok, SimSource, key_of, bump, tok_of, Pred
 
 PROPERTY = "C02"
 LEVEL = "exploration"
-N_RUNS = {"quick": 250000, "thorough": 4000000}
+N_RUNS = {"quick": 250000, "thorough": 12000000}
 RULE = ("each run draws a pipeline of 1-6 streaming elements (probe callables, Variable, Filter, "
         "Slice with every sign pattern and step, Count, RunIf, Print, Context, UpdateContext, "
         "MakeFilename, Split of 1-3 such branches with bufsize in {1,2,3,5,None}) in Sequence or "
